@@ -301,6 +301,96 @@ fn steps_removed_without_slave_port(rep: &mut Report, seed: u64) {
     }
 }
 
+/// The daemon's own observation server (statime_linux::observer, the task main.rs spawns): a
+/// client gets the state that is live when it connects - not the state of an earlier moment.
+fn real_observer_serves_live_state(rep: &mut Report, seed: u64) {
+    use tokio::io::AsyncReadExt;
+    let replay = json!({"real_observer_seed": seed});
+    let mut rng = StdRng::seed_from_u64(seed);
+    let dir = scratch_dir("c19-observer");
+    let sock = dir.join("observe.sock");
+    let _ = std::fs::remove_file(&sock);
+    let cfg_path = dir.join("statime.toml");
+    if std::fs::write(&cfg_path, format!("[[port]]\ninterface = \"lo\"\n\n[observability]\nobservation-path = \"{}\"\n", sock.display())).is_err() {
+        return;
+    }
+    let Ok(config) = statime_linux::config::Config::from_file(&cfg_path) else {
+        rep.observe("the daemon's configuration parser rejected the harness' minimal configuration: real observer not exercised");
+        return;
+    };
+    let Ok(built) = Build::new(0x33).build() else { return };
+    let node = built.node;
+    let base = state_of(&node, None, program(&mut rng)).instance;
+    let Ok(rt) = tokio::runtime::Builder::new_multi_thread().worker_threads(2).enable_all().build() else { return };
+    let problems: Vec<(String, String)> = rt.block_on(async {
+        let mut problems = vec![];
+        let (tx, rx) = tokio::sync::watch::channel(base.clone());
+        let t_spawn = std::time::Instant::now();
+        let _h = statime_linux::observer::spawn(&config, rx).await;
+        let mut seen = false;
+        for _ in 0..2000 {
+            if sock.exists() {
+                seen = true;
+                break;
+            }
+            tokio::time::sleep(Duration::from_millis(5)).await;
+        }
+        if !seen {
+            return vec![("inconclusive".to_string(), "observation socket did not appear".to_string())];
+        }
+        let t_seen = t_spawn.elapsed().as_secs_f64();
+        for k in 0..6u16 {
+            // the instance state changes (as after a BMCA run), then somebody looks
+            let mut st = base.clone();
+            st.current_ds.steps_removed = 100 + k;
+            st.default_ds.priority_1 = 10 + k as u8;
+            if tx.send(st.clone()).is_err() {
+                break;
+            }
+            tokio::time::sleep(Duration::from_millis(rng.gen_range(20..120))).await;
+            let t_connect = t_spawn.elapsed().as_secs_f64();
+            let Ok(mut s) = tokio::net::UnixStream::connect(&sock).await else {
+                problems.push(("inconclusive".into(), "connect failed".into()));
+                break;
+            };
+            let mut buf = vec![];
+            if tokio::time::timeout(Duration::from_secs(20), s.read_to_end(&mut buf)).await.is_err() {
+                problems.push(("inconclusive".into(), "no answer from the observer within 20 s".into()));
+                break;
+            }
+            let Ok(v) = serde_json::from_slice::<serde_json::Value>(&buf) else {
+                problems.push(("C19|observer|not-json".into(), format!("the observation socket served {} octets that are not JSON", buf.len())));
+                break;
+            };
+            let want = serde_json::to_value(&st).unwrap();
+            if v["instance"] != want {
+                problems.push((
+                    "C19|observer|stale-or-altered-state".into(),
+                    format!("connection {k}: the state published before connecting has stepsRemoved {} / priority1 {}, the socket served stepsRemoved {} / priority1 {}", 100 + k, 10 + k, v["instance"]["current_ds"]["steps_removed"], v["instance"]["default_ds"]["priority_1"]),
+                ));
+            }
+            // uptime: taken after the connection was accepted, the observer started before the
+            // socket showed up
+            if let Some(up) = v["program"]["uptime_seconds"].as_f64() {
+                if up + 0.001 < t_connect - t_seen {
+                    problems.push(("C19|observer|uptime-of-an-earlier-moment".into(), format!("connection {k}: uptime {up:.3} s, but the observer had been running for at least {:.3} s when the client connected", t_connect - t_seen)));
+                }
+            }
+        }
+        problems
+    });
+    drop(rt);
+    let _ = std::fs::remove_file(&sock);
+    rep.ev("real_observer_connections_checked");
+    for (sig, what) in problems {
+        if sig == "inconclusive" {
+            rep.observe(&format!("real observer scenario: {what}"));
+        } else {
+            rep.violation(&sig, &what, replay.clone());
+        }
+    }
+}
+
 pub fn check_state(rep: &mut Report, ctx: &mut Ctx, st: &ObservableState, label: &str) {
     let replay = json!({"label": label, "state": serde_json::to_value(st).unwrap_or(json!(null))});
     // (2) the JSON hop
@@ -421,7 +511,7 @@ fn state_of(node: &Node, contribution: Option<FilterEstimate>, prog: ProgramData
 
 pub fn run(rep: &mut Report, tier: &str, seed: u64, shard: (u32, u32), _replay: Option<&str>) {
     rep.rule = "instance states taken from live simulated instances through the public getters the daemon uses (grandmaster, slave with servo estimates, 1-8-port boundary clocks, P2P ports with measured link delay, Faulty/Passive/Listening ports, path lists 0..128, every time-properties combination) plus synthetic extremes (offsets/delays up to +-10 s and beyond 64 bits of 2^-32 ns, negative values), served to the real exporter over a harness observation socket; the HTTP response is parsed independently and every metric compared; distinct = distinct JSON states".into();
-    rep.require(&["aborted_scrape", "state_with_e2e_port_before_p2p_port", "p2p_mean_link_delay_checked", "steps_removed_checked_without_slave_port", "json_roundtrip", "http_response", "exposition_parsed", "metric_compared"]);
+    rep.require(&["aborted_scrape", "real_observer_connections_checked", "state_with_e2e_port_before_p2p_port", "p2p_mean_link_delay_checked", "steps_removed_checked_without_slave_port", "json_roundtrip", "http_response", "exposition_parsed", "metric_compared"]);
     let mut ctx = match start_ctx(&format!("c19-{}", shard.0)) {
         Ok(c) => c,
         Err(e) => {
@@ -556,6 +646,9 @@ pub fn run(rep: &mut Report, tier: &str, seed: u64, shard: (u32, u32), _replay: 
             aborted_scrape(rep, &mut ctx, &st);
             p2p_link_delay_persistence(rep, rng.gen());
             steps_removed_without_slave_port(rep, rng.gen());
+            if i % 30 == 1 {
+                real_observer_serves_live_state(rep, rng.gen());
+            }
         }
         check_state(rep, &mut ctx, &st, &format!("scenario {scenario}, {n_ports} ports"));
         rep.evaluations += 1;
